@@ -362,6 +362,45 @@ fn gen_op(rng: &mut Rng, nids: u64) -> SOp {
     }
 }
 
+/// Read-only operations take `&self`: several threads may use them at the same time (the trackers do, through a read
+/// lock). On a quiescent store every such call has exactly one right answer - the model's - whoever else is reading.
+fn concurrent_readers(st: &Store, m: &MStore, nids: u64, seed: u64) -> Option<Value> {
+    let queries: Vec<WLookup> = (0..4i64).map(WLookup::CounterAtLeast).chain((1..=nids).map(WLookup::HistoryContains)).chain((0..3u64).map(WLookup::HasClass)).collect();
+    let expect: Vec<BTreeSet<(u64, u8)>> = queries.iter().map(|q| m.tracks.values().filter(|t| lookup_model(q, t)).map(|t| (t.id, t.attrs.status_code())).collect()).collect();
+    let total = m.tracks.len();
+    let bad: std::sync::Mutex<Option<Value>> = std::sync::Mutex::new(None);
+    std::thread::scope(|sc| {
+        for t in 0..4u64 {
+            let (queries, expect, bad) = (&queries, &expect, &bad);
+            sc.spawn(move || {
+                let mut rng = Rng::for_case(seed, t, 77);
+                for _ in 0..12 {
+                    let k = rng.usize(queries.len() + 1);
+                    if k < queries.len() {
+                        let r = st.lookup(queries[k].clone());
+                        let lr: BTreeSet<(u64, u8)> = r.iter().map(|(i, s)| (*i, status_of(s))).collect();
+                        if lr != expect[k] || r.len() != expect[k].len() {
+                            *bad.lock().unwrap() = Some(json!({"op": "lookup", "query": format!("{:?}", queries[k]), "lib": lr, "lib_len": r.len(), "model": expect[k], "reader_thread": t}));
+                            return;
+                        }
+                    } else {
+                        let n: usize = st.shard_stats().iter().sum();
+                        if n != total {
+                            *bad.lock().unwrap() = Some(json!({"op": "shard_stats", "lib_sum": n, "model": total, "reader_thread": t}));
+                            return;
+                        }
+                    }
+                    if rng.chance(0.3) {
+                        std::thread::yield_now();
+                    }
+                }
+            });
+        }
+    });
+    let r = bad.lock().unwrap().take();
+    r
+}
+
 fn run_sequence(env: &Env, rep: &mut Report, idx: u64, ops: &[SOp], shards: usize, kind: &str) -> bool {
     let mut st: Store = TrackStoreBuilder::new(shards).default_attributes(WAttrs::new(1, env.cap, env.plan.clone())).metric(WMetric { state: 0, plan: env.plan.clone() }).notifier(env.notif.clone()).build();
     let mut m = MStore::new(WAttrs::new(1, env.cap, env.mplan.clone()), WMetric { state: 0, plan: env.mplan.clone() });
@@ -379,6 +418,14 @@ fn run_sequence(env: &Env, rep: &mut Report, idx: u64, ops: &[SOp], shards: usiz
             return false;
         }
         rep.count("steps_compared");
+        // random sequences: every ~40th step (and after the last one) four threads read the quiescent store at once
+        if kind == "random" && (i + 1 == ops.len() || (i * 7 + idx as usize) % 40 == 0) && !m.tracks.is_empty() {
+            rep.count("concurrent_reader_phases(4 threads x 12 reads)");
+            if let Some(v) = concurrent_readers(&st, &m, 8, idx ^ i as u64) {
+                rep.violation("C09/concurrent-readers/wrong-answer-on-quiescent-store", idx, ctx(v));
+                return false;
+            }
+        }
         rep.seen("abstract_states", {
             let mut h = Hasher::new();
             for (id, t) in &m.tracks {
@@ -396,7 +443,7 @@ fn main() {
     let env = Env { plan: FaultPlan::new(), mplan: FaultPlan::new(), notif: CountingNotifier::default(), cap: 4 };
     let alpha = small_alphabet();
     let a = alpha.len() as u64;
-    rep.note("rule", json!(format!("two workloads. (1) exhaustive: every operation sequence of length <= L over a small alphabet of {} operations (ids 1..3, classes 0..1, two observation values, poison observations that make optimize fail, owned / external / non-blocking merges incl. same-track and missing ids, fetch, lookup, find_usable, clear), shards 1 and 2; L = 2 in the quick tier plus a random sample of length-3 sequences, L = 3 complete in the thorough tier. (2) random sequences of 50..400 operations over 8 ids, 3 classes, shards 1..5. After EVERY operation the return value is compared with a sequential model (a map id -> track whose callbacks are the workload's own) and every shard's contents are read through get_store() and compared track by track (attributes, observations per class, merge history, metric state), with id % n placement and per-shard counts. add() on a missing id is additionally compared with new_track(id)...build() + add_track in a scratch store. Non-trivial: sequences in which at least one merge or failing callback occurs; distinct by sequence hash.", a)));
+    rep.note("rule", json!(format!("two workloads. (1) exhaustive: every operation sequence of length <= L over a small alphabet of {} operations (ids 1..3, classes 0..1, two observation values, poison observations that make optimize fail, owned / external / non-blocking merges incl. same-track and missing ids, fetch, lookup, find_usable, clear), shards 1 and 2; L = 2 in the quick tier plus a random sample of length-3 sequences, L = 3 complete in the thorough tier. (2) random sequences of 50..400 operations over 8 ids, 3 classes, shards 1..5. After EVERY operation the return value is compared with a sequential model (a map id -> track whose callbacks are the workload's own) and every shard's contents are read through get_store() and compared track by track (attributes, observations per class, merge history, metric state), with id % n placement and per-shard counts. add() on a missing id is additionally compared with new_track(id)...build() + add_track in a scratch store. In the random sequences every ~40th step four threads issue lookup (all query kinds) / shard_stats concurrently (the &self operations) against the quiescent store; each call must return the answer of the model. Non-trivial: sequences in which at least one merge or failing callback occurs; distinct by sequence hash.", a)));
     rep.note("assumptions", json!(["workload callbacks are deterministic functions of their arguments (data-driven failures)", "merge_external_noblock: the result is awaited before the next operation"]));
     // ---------- exhaustive part
     let full3 = cli.thorough() && !cli.small;
